@@ -14,9 +14,14 @@ func init() {
 	VerifHarnesses["H_C18_indent"] = H_C18_indent
 }
 
-// c18Alphabet: with ALPHA=1 the source bytes are restricted to the structural
+// c18Alphabet: with ALPHA=2 the text starts with "\u (rest arbitrary); with ALPHA=1 the source bytes are restricted to the structural
 // alphabet [ ] { } " , : 1 space backslash (longer texts stay tractable).
 func c18Alphabet(t *verifrt.T, src []byte) {
+	if t.Param("ALPHA") == 2 {
+		// texts that start with the three bytes "\u : reaches the \uXXXX scanner
+		t.Assume(verifrt.And(len(src) >= 3, src[0] == '"', src[1] == '\\', src[2] == 'u'))
+		return
+	}
 	if t.Param("ALPHA") != 1 {
 		return
 	}
@@ -28,16 +33,8 @@ func c18Alphabet(t *verifrt.T, src []byte) {
 
 func c18Verdict(t *verifrt.T, src []byte, accepted bool) (strict bool) {
 	strict = verifref.ValidJSON(src, verifref.Relax{})
-	num := verifref.ValidJSON(src, verifref.Relax{NumberGo: true})
-	ctrl := verifref.ValidJSON(src, verifref.Relax{CtrlInString: true})
-	esc := verifref.ValidJSON(src, verifref.Relax{AnyEscape: true})
-	lax := verifref.ValidJSON(src, verifref.Relax{NumberGo: true, CtrlInString: true, AnyEscape: true})
-	and, implies := verifrt.And, verifrt.Implies
-	t.Known("D3-number-forms-outside-RFC-accepted", and(accepted, !strict, num))
-	t.Known("D4-raw-control-character-in-string-accepted", and(accepted, !strict, ctrl))
-	t.Known("D29-compact-indent-accept-invalid-escapes", and(accepted, !strict, esc))
-	t.Assert("accept-only-listed-language", implies(accepted, lax))
-	t.Assert("valid-json-accepted", implies(strict, accepted))
+	t.Assert("accept-only-valid-json", verifrt.Implies(accepted, strict))
+	t.Assert("valid-json-accepted", verifrt.Implies(strict, accepted))
 	return strict
 }
 
@@ -105,13 +102,8 @@ func H_C18_indent(t *verifrt.T) {
 	}
 	if strict {
 		ref := verifref.RefIndent(orig, []byte(pi[0]), []byte(pi[1]), true)
-		refDrop := verifref.RefIndent(orig, []byte(pi[0]), []byte(pi[1]), false)
 		want := append(append([]byte{}, before...), ref...)
-		wantDrop := append(append([]byte{}, before...), refDrop...)
-		got := buf.Bytes()
-		kfTrail := verifrt.And(!verifref.BytesEq(ref, refDrop), verifref.BytesEq(got, wantDrop))
-		t.Known("D24-indent-drops-trailing-whitespace", kfTrail)
-		t.Assert("appends-exactly-the-indented-text", verifrt.Or(kfTrail, verifref.BytesEq(got, want)))
+		t.Assert("appends-exactly-the-indented-text", verifref.BytesEq(buf.Bytes(), want))
 	}
 	t.Cover("accepted-valid", strict)
 }
